@@ -1,12 +1,12 @@
 package props
 
 import (
-	"google.golang.org/protobuf/proto"
-	"compress/gzip"
 	"bytes"
+	"compress/gzip"
 	"context"
 	"errors"
 	"fmt"
+	"google.golang.org/protobuf/proto"
 	"io"
 	"math"
 	"net/http/httptest"
